@@ -166,6 +166,19 @@ func (db *DB) Merge() error {
 		}
 	}
 
+	// 扫描期间被判定为无效的记录, 其取代者可能位于尚未持久化的活跃文件中
+	// 完成标识一旦落盘, 重启即以重写文件取代原文件, 因此须先持久化活跃文件, 否则掉电后新旧记录均丢失
+	// (期间切换下来的旧数据文件在切换时已持久化)
+	db.mu.Lock()
+	err = db.activeFile.Sync()
+	if err == nil {
+		db.bytesWrite = 0
+	}
+	db.mu.Unlock()
+	if err != nil {
+		return err
+	}
+
 	// 在 merge 临时目录创建并打开 merge 完成标识文件
 	mergeFinishedFile, err := datafile.OpenFile(mergePath, 0,
 		datafile.MergeFinishedFileSuffix, db.options.FileIOType)
